@@ -71,12 +71,12 @@ def trace_validate(ctx, spec, trace_path, index_path, prop_default, timeout=1800
     return res
 
 
-def record_and_validate_text(ctx, prop_id, nd, n, maxbytes):
-    d = ctx.dir("vtext-%s" % ("nd" if nd else "doc"))
+def record_and_validate_text(ctx, prop_id, nd, n, maxbytes, mode="docs"):
+    d = ctx.dir("vtext-%s-%s" % ("nd" if nd else "doc", mode))
     trace = os.path.join(d, "trace.ndjson")
     index = os.path.join(d, "cases.json")
     args = ["v-text", "-n", str(n), "-maxbytes", str(maxbytes), "-trace", trace, "-index", index,
-            "-seed", str(ctx.seed), "-property", prop_id]
+            "-seed", str(ctx.seed), "-property", prop_id, "-mode", mode]
     if nd:
         args.append("-nd")
     ctx.vh(args)
@@ -95,6 +95,7 @@ def c01(ctx):
     for name in ("struct", "num", "str", "atom"):
         enum_replay(ctx, name, "C01")
     record_and_validate_text(ctx, "C01", False, 400 if quick(ctx) else 6000, 250000 if quick(ctx) else 4000000)
+    record_and_validate_text(ctx, "C01", False, 0, 0, mode="sweep")     # all 256 bytes at 32 token positions
     ctx.exhaustive = True
 
 
@@ -428,4 +429,43 @@ def c19(ctx):
     fuzz_run(ctx, ["g-serfuzz", "-dump", r["dump"], "-expect", str(r["distinct"]), "-property", "C19"], "C19")
     os.remove(r["dump"])
     fuzz_run(ctx, ["v-serfuzz", "-seed", str(ctx.seed), "-docs", "10" if q else "60", "-property", "C19"], "C19")
+    ctx.exhaustive = True
+
+
+@prop("C04")
+def c04(ctx):
+    ctx.rule = ("G: StringEsc.tla tabulates the UTF-8 bytes of all 63 488 non-surrogate \\u code units and of surrogate pairs (quick: every "
+                "high x 16 lows and 16 highs x every low; thorough: all 1 048 576), with well-formedness and decode(encode)=id as "
+                "invariants; each row is replayed in lower/upper/mixed hex, as key and as value, copy and no-copy, both kernels, with the "
+                "escape at rotating message offsets 0..63 and decoder-window offsets 20..31 and the string ending 0..70 bytes before the "
+                "end of the input. V: every byte after a backslash, in each of the 4 / 12 hex positions, raw bytes and byte pairs, "
+                "backslash runs of length 1..12 around the 64-byte seam, and strings of length 0..300 (thorough 0..4096) with escapes at "
+                "window seams, all judged (verdict AND exposed bytes) by the TLA+ recogniser. Non-trivial = every table row; accepted trace cases.")
+    q = quick(ctx)
+    for cfg in (["MC_StringEsc_units.cfg", "MC_StringEsc_lows.cfg"] if q else ["MC_StringEsc_units.cfg", "MC_StringEsc_allpairs.cfg"]):
+        r = ctx.tlc("MC_StringEsc", cfg=cfg, dump="states", label=cfg, timeout=3000)
+        ctx.vh(["g-esc", "-dump", r["dump"], "-expect", str(r["distinct"]), "-property", "C04", "-variants", "2" if q else "3"], timeout=7200)
+        os.remove(r["dump"])
+    record_and_validate_text(ctx, "C04", False, 100 if q else 6000, 0, mode="esc")
+    ctx.exhaustive = True
+
+
+@prop("C06")
+def c06(ctx):
+    ctx.rule = ("G: Stage1.tla defines the structural positions and the stage-1 verdict as a function of the input (byte-level transducer); "
+                "TLC enumerates every string over the bytes quote, backslash, { } , SP LF 0x01 x up to length L (Parse and ParseND mode) with positions and verdict; "
+                "each is run through findStructuralIndices on BOTH kernel families with the 64-byte seam in front of every byte, partial "
+                "last blocks of every length, and fillers that make the tokens the last/first/stripped entries of a 1408-entry index "
+                "buffer; both must equal the spec (hence each other). M: shift/filler lemmas that justify the placements, monotone "
+                "positions, no structural inside a string. V: generated, mutated and random inputs parsed end to end on both kernels: "
+                "same error, identical tape and string buffer. Non-trivial = string containing a quote or backslash.")
+    q = quick(ctx)
+    for cfg, nd in (("MC_Stage1.cfg", False), ("MC_Stage1_nd.cfg", True)):
+        r = ctx.tlc("MC_Stage1", cfg=cfg, consts={"MaxLen": 5 if q else 6}, dump="states", label=cfg, timeout=3000)
+        args = ["g-stage1", "-dump", r["dump"], "-expect", str(r["distinct"]), "-property", "C06"]
+        if nd:
+            args.append("-nd")
+        ctx.vh(args, timeout=7200)
+        os.remove(r["dump"])
+    ctx.vh(["v-kernels", "-seed", str(ctx.seed), "-n", "1500" if q else "30000", "-property", "C06"], timeout=7200)
     ctx.exhaustive = True
